@@ -322,7 +322,7 @@ def r15_7(prog: Program, chk: Check) -> None:
 
     from . import solver_model as sm
 
-    size = 3 if _os.environ.get("VERIF_SELFTEST") else 5 if chk.tier == "thorough" else 4
+    size = 3 if _os.environ.get("VERIF_SELFTEST") else 6 if chk.tier == "thorough" else 4
     chk.rule(
         "R15.7",
         "the solver as a finite model: solve() (with remove_redundant_solutions) is interpreted from its AST over a lattice of five types (sets of runtime classes; "
